@@ -26,8 +26,10 @@ class RecStack(BaseNetworkStack):
         self.sockets.append((epr_socket_id, remote_node_id, remote_epr_socket_id))
         return None
 
+    purpose_offset = 0      # a harness may make the socket-id -> purpose-id mapping non-identity (purpose = socket id + offset)
+
     def get_purpose_id(self, remote_node_id, epr_socket_id):
-        return epr_socket_id
+        return epr_socket_id + self.purpose_offset
 
 
 class NetExecutor(TraceExecutor):
